@@ -168,7 +168,7 @@ func scopeSexp(pkg *types.Package) string {
 		}
 		iface := obj.Type().Underlying().(*types.Interface).Complete()
 		_, isTN := obj.(*types.TypeName)
-		fmt.Fprintf(&b, " (%s (iface %v %v (tparams", q(name), tparams != nil && tparams.Len() > 0, isTN)
+		fmt.Fprintf(&b, " (%s (iface %v %v %s (tparams", q(name), tparams != nil && tparams.Len() > 0, isTN, q(obj.Type().String()))
 		if tparams != nil {
 			for i := 0; i < tparams.Len(); i++ {
 				tp := tparams.At(i)
